@@ -4,13 +4,14 @@ CONSTANTS
   Endpoints = {"event", "batch", "peer-batch", "otlp-http-traces", "otlp-http-logs", "otlp-grpc-traces", "otlp-grpc-logs", "proxy", "query"}
   CTypes = {"json", "msgpack", "protobuf", "absent", "junk"}
   Comps = {"none", "gzip", "zstd", "corrupt"}
-  Shapes = {"valid", "empty", "truncated", "subst", "wrongtop", "deep", "hugelen", "dupkeys", "nonstrkeys", "badutf8", "naninf", "exttypes"}
+  Shapes = {"valid", "empty", "truncated", "subst", "wrongtop", "deep", "hugelen", "lenbomb", "dupkeys", "nonstrkeys", "badutf8", "naninf", "exttypes"}
   Hdrs = {"nokey", "key", "odd"}
   ReqMode = "full"
   CfgSamplers = {"DeterministicSampler", "DynamicSampler", "EMADynamicSampler", "EMAThroughputSampler", "WindowedThroughputSampler", "TotalThroughputSampler", "RulesBasedSampler"}
   CondOps = {"=", "!=", ">", "<", ">=", "<=", "starts-with", "contains", "does-not-contain", "exists", "not-exists", "has-root-span", "matches", "in", "not-in"}
   CondVals = {"absent", "int", "str", "numstr", "bool", "float", "nan", "null", "list", "intlist", "emptylist", "mixedlist", "badregex", "emptystr"}
   CondTypes = {"absent", "string", "int", "float", "bool"}
+  RuleKinds = {"int", "dur", "float", "list"}
   Faithful = FALSE
 INVARIANTS TypeOK Answered OnlyListed
 PROPERTY Evaluated
